@@ -21,6 +21,19 @@ import (
 
 var reOutOfVocabulary = regexp.MustCompile(`(?s)(var|const|import|type)\s*\(|\{%%.*[\]a-zA-Z_0-9]\{.*%%\}`)
 
+// removableAfter drops from removable the flags of the bytes removed by must.
+func removableAfter(removable, must []bool) []bool {
+	var out []bool
+	for i := range removable {
+		if !must[i] {
+			out = append(out, removable[i])
+		}
+	}
+	return out
+}
+
+var reMultiStmt = regexp.MustCompile(`\{%[^}\n]*\n`)
+
 func commentTrigger(src string) bool {
 	return reMultiComment.MatchString(src) || strings.HasSuffix(src, "#}")
 }
@@ -215,7 +228,7 @@ func renderTemplate(src string, format int) (out string, err error, panicked str
 func cutTemplateStraight(r *rand.Rand) string {
 	free := []string{"{% var v%d = 1 %}", "{% x%d := 2 %}", "{# c #}", "{# a\nb #}", "{##}", "{% if true %}{% end %}", "{%% y%d := 1 %%}", "{%%  %%}",
 		"{{ 1 }}", "{{ \"s\" }}", "{{ render \"p.txt\" }}", "{% show 5 %}", "{% show render \"p.txt\" %}", "{% if\n true %}{% end %}", "{% _ = 3 %}"}
-	blocks := [][2]string{{"{% if true %}", "{% end %}"}, {"{% if true %}", "{% end if %}"}, {"{% raw %}", "{% end raw %}"}, {"{% raw m %}", "{% end raw m %}"}, {"{% raw %}", "{% end %}"}}
+	blocks := [][2]string{{"{% if true %}", "{% end %}"}, {"{% if\n true %}", "{% end %}"}, {"{% if true %}", "{% end if %}"}, {"{% raw %}", "{% end raw %}"}, {"{% raw m %}", "{% end raw m %}"}, {"{% raw %}", "{% end %}"}}
 	var b strings.Builder
 	id := 0
 	var closers []string
@@ -288,12 +301,22 @@ func init() {
 			exp, removable := refExpansion(src, items)
 			if !embeds(exp, removable, out) {
 				sig := "output-not-verbatim"
-				if commentTrigger(src) {
+				if reMultiStmt.MatchString(src) {
+					// known finding: a statement spanning lines is attributed to its first line; the text after it on
+					// its last line is cut even when that line holds content
+					sig = "output-not-verbatim:multiline-statement"
+				} else if commentTrigger(src) {
 					// known finding: cutSpaces looks at the first and at the last text of a line only; a comment that
 					// spans lines or ends the source closes the line while a text stands between the statement and it
 					sig = "output-not-verbatim:comment-closes-line"
 				}
 				c.Fail(sig, map[string]any{"src": Hx(src), "format": 0, "src_text": src, "output": out, "expansion": exp})
+				return
+			}
+			// lower bound (documented behaviour): what must be cut is cut
+			must := refMustCut(src, items)
+			if !embeds(withoutMust(exp, must), removableAfter(removable, must), out) {
+				c.Fail("line-not-cut", map[string]any{"src": Hx(src), "format": 0, "src_text": src, "output": out, "expected_at_most": withoutMust(exp, must)})
 				return
 			}
 			if out != exp {
@@ -328,7 +351,11 @@ func init() {
 				for i := t.start; i < t.start+t.left; i++ {
 					if !remAt[i] {
 						sig := "cut-removes-content"
-						if commentTrigger(src) {
+						if reMultiStmt.MatchString(src) {
+					// known finding: a statement spanning lines is attributed to its first line; the text after it on
+					// its last line is cut even when that line holds content
+					sig = "output-not-verbatim:multiline-statement"
+				} else if commentTrigger(src) {
 							sig += ":comment-closes-line"
 						}
 						c.Fail(sig, map[string]any{"src": Hx(src), "format": 0, "src_text": src, "offset": i})
@@ -338,7 +365,11 @@ func init() {
 				for i := t.start + t.length - t.right; i < t.start+t.length; i++ {
 					if !remAt[i] {
 						sig := "cut-removes-content"
-						if commentTrigger(src) {
+						if reMultiStmt.MatchString(src) {
+					// known finding: a statement spanning lines is attributed to its first line; the text after it on
+					// its last line is cut even when that line holds content
+					sig = "output-not-verbatim:multiline-statement"
+				} else if commentTrigger(src) {
 							sig += ":comment-closes-line"
 						}
 						c.Fail(sig, map[string]any{"src": Hx(src), "format": 0, "src_text": src, "offset": i})
@@ -366,6 +397,10 @@ func init() {
 					check(pre + st + cl + post)
 				})
 			})
+		}
+		// regressions: repaired defects
+		for _, s := range []string{"{% if\n true %}  {% end %}\n", "{% if\n true %}  {% end %}\nabc", "{% raw m %}x{% endm %}{% end raw m %}", "a\n{% if\n true %} \t{% end %}  \n"} {
+			check(s)
 		}
 		for i := 0; i < c.N; i++ {
 			check(cutTemplateStraight(c.Rng))
